@@ -24,6 +24,17 @@ def _reexec():
         env['VERIF_REEXEC'] = '1'
         env['PYTHONDONTWRITEBYTECODE'] = '1'
         env.pop('BEARTYPE_IS_COLOR', None)
+        # Address-space randomisation off (inherited by every worker and child): beartype iterates
+        # sets of types, whose order follows object addresses, so event digests repeat only then.
+        try:
+            import ctypes
+            libc = ctypes.CDLL(None, use_errno=True)
+            ADDR_NO_RANDOMIZE = 0x0040000
+            cur = libc.personality(0xffffffff)
+            if cur != -1 and libc.personality(cur | ADDR_NO_RANDOMIZE) != -1:
+                env['VERIF_NOASLR'] = '1'
+        except Exception:
+            pass
         os.execve(sys.executable, [sys.executable, '-B', os.path.abspath(__file__)] + sys.argv[1:], env)
 
 
@@ -34,6 +45,9 @@ def main(argv):
     _reexec()
     sys.path.insert(0, HERE)
     cmd = argv[0]
+    if cmd == '--worker':
+        from sim import kernel
+        return kernel.worker_main(argv[1:])
     if cmd == 'setup':
         from sim import boot
         boot.boot()
